@@ -72,6 +72,10 @@ pub const SITES: &[(&str, &[&str])] = &[
     ("getrange:start-vs-end", &BEQ),
     ("getrange:negative-start-vs-negative-end", &BEQ),
     ("setrange:offset-vs-len", &BEQ),
+    // capacity threshold of the string container: SSO_MAX_LEN = 23 bytes inline, then heap (src/redis/data/sds.rs)
+    ("append:total-length-vs-sds-inline-limit", &BEQ),
+    ("setrange:end-vs-sds-inline-limit", &BEQ),
+    ("set:value-length-vs-sds-inline-limit", &BEQ),
     // lists
     ("lindex:index-vs-len", &BEQ),
     ("lindex:index-vs-minus-len", &BEQ),
@@ -554,6 +558,33 @@ pub fn scenario(cx: &mut Ctx, rng: &mut Rng, site: &str, cell: usize) {
         "setrange:offset-vs-len" => {
             let n = cx.ensure_string(rng, k) as i64;
             cx.step(Command::SetRange(k.to_string(), (n + d).max(0) as usize, SDS::from_str(*rng.pick(&["Z", "ZZ", ""]))));
+        }
+        "append:total-length-vs-sds-inline-limit" | "setrange:end-vs-sds-inline-limit" => {
+            let mut n = cx.ensure_string(rng, k) as i64;
+            if n > 18 {
+                cx.step(Command::set(k.to_string(), SDS::from_str("abcde")));
+                n = 5;
+            }
+            let total = 23 + d; // 22 / 23 / 24 bytes afterwards
+            if site.starts_with("append") {
+                let v: Vec<u8> = (0..(total - n)).map(|i| b'A' + (i % 26) as u8).collect();
+                cx.step(Command::Append(k.to_string(), SDS::new(v)));
+            } else {
+                // write the tail so that it ends exactly at `total`: inside, at the end, or past the end (zero padding)
+                let off = match rng.below(3) { 0 => n - 1, 1 => n, _ => n + 2 }.max(0);
+                let v: Vec<u8> = (0..(total - off)).map(|i| b'a' + (i % 26) as u8).collect();
+                cx.step(Command::SetRange(k.to_string(), off as usize, SDS::new(v)));
+            }
+            cx.step(Command::Get(k.to_string()));
+            cx.step(Command::Append(k.to_string(), SDS::from_str("+")));
+            cx.step(Command::StrLen(k.to_string()));
+        }
+        "set:value-length-vs-sds-inline-limit" => {
+            let v: Vec<u8> = (0..(23 + d)).map(|i| (i * 37 % 251) as u8).collect();
+            cx.step(Command::set(k.to_string(), SDS::new(v)));
+            cx.step(Command::GetRange(k.to_string(), -3, -1));
+            cx.step(Command::SetRange(k.to_string(), 21, SDS::from_str("xyz")));
+            cx.step(Command::Get(k.to_string()));
         }
         "lindex:index-vs-len" | "lindex:index-vs-minus-len" | "lset:index-vs-len" | "lset:index-vs-minus-len" => {
             let n = cx.ensure_list(rng, k) as isize;
